@@ -4,6 +4,8 @@ package libtime
 
 import (
 	"context"
+	"fmt"
+	"regexp"
 	"time"
 
 	"github.com/luthersystems/elps/lisp"
@@ -147,6 +149,9 @@ func BuiltinParseRFC3339(env *lisp.LEnv, args *lisp.LVal) *lisp.LVal {
 	if stamp.Type != lisp.LString {
 		return env.Errorf("argument is not a string: %v", stamp.Type)
 	}
+	if err := checkRFC3339(stamp.Str); err != nil {
+		return env.Error(err)
+	}
 	t, err := time.Parse(time.RFC3339, stamp.Str)
 	if err != nil {
 		return env.Error(err)
@@ -154,10 +159,36 @@ func BuiltinParseRFC3339(env *lisp.LEnv, args *lisp.LVal) *lisp.LVal {
 	return Time(t)
 }
 
+// rfc3339Shape is the date-time production of RFC 3339 section 5.6 with at
+// most nine fractional digits, the precision of a time value.
+var rfc3339Shape = regexp.MustCompile(`^[0-9]{4}-[0-9]{2}-[0-9]{2}T[0-9]{2}:[0-9]{2}:[0-9]{2}(\.[0-9]{1,9})?(Z|[+-][0-9]{2}:[0-9]{2})$`)
+
+// checkRFC3339 refuses what time.Parse lets through.  Parse with the RFC3339
+// layouts is deliberately lenient (golang/go#54580): it accepts a comma as the
+// fraction separator, a one-digit hour, an offset of +24:00 or +23:60, and it
+// silently drops a tenth fractional digit.  Formatting such a value can even
+// give a string the parser then refuses ("...+24:60" prints as "...+25:00").
+// The field ranges Parse does check (month, day, hour, minute, second) are
+// left to it.
+func checkRFC3339(s string) error {
+	if !rfc3339Shape.MatchString(s) {
+		return fmt.Errorf("not a valid RFC 3339 timestamp: %q", s)
+	}
+	if zone := s[len(s)-6:]; zone[0] == '+' || zone[0] == '-' {
+		if zone[1:3] > "23" || zone[4:6] > "59" {
+			return fmt.Errorf("time zone offset out of range: %q", s)
+		}
+	}
+	return nil
+}
+
 func BuiltinParseRFC3339Nano(env *lisp.LEnv, args *lisp.LVal) *lisp.LVal {
 	stamp := args.Cells[0]
 	if stamp.Type != lisp.LString {
 		return env.Errorf("argument is not a string: %v", stamp.Type)
+	}
+	if err := checkRFC3339(stamp.Str); err != nil {
+		return env.Error(err)
 	}
 	t, err := time.Parse(time.RFC3339Nano, stamp.Str)
 	if err != nil {
